@@ -231,7 +231,8 @@ def run_inline(case, R):
     if al == 'dhtv':
         al = f'dhtv:{2 * (F - 1)}:0:{F}:1'
     c = dict(kind=case['kind'], cls='gauss', K=case['K'], N=case['T'], D=case['D'], lead=[F], init='dirichlet:1', iters=4 if case['kind'] != 'cbmm' else 2,
-             opts={'wca': [-3] if case['rs'][-1] % 2 else [-3, -1], 'saliency': 'none', 'aligner': al}, rs=case['rs'])
+             opts={'wca': [-3] if case['rs'][-1] % 2 else [-3, -1], 'saliency': ('none', 'pos', 'none', 'int', 'pos')[case['rs'][-1] % 5], 'aligner': al}, rs=case['rs'])
+    # (observation weights act on the M-step only: the alignment step sees, reorders and hands on the plain posteriors whatever the saliency)
     if case['kind'] == 'cacgmm':
         c['opts']['affiliation_eps'] = 0.0
         if case['rs'][-1] % 3 == 0:
